@@ -80,6 +80,20 @@ func (s *Svc) Echo(req *[]byte, res *[]byte) error {
 	return s.w.handle(*req, res)
 }
 
+// Plain ignores the flag byte (used where the payload itself is corrupted on purpose).
+func (s *Svc) Plain(req *[]byte, res *[]byte) error {
+	in := *req
+	if len(in) > 0 {
+		s.w.execs[in[0]]++
+	}
+	out := make([]byte, len(in))
+	for i := range in {
+		out[i] = in[len(in)-1-i] ^ 0x5A
+	}
+	*res = out
+	return nil
+}
+
 // EchoCtx has the with-context shape.
 func (s *Svc) EchoCtx(ctx context.Context, req *[]byte, res *[]byte) error {
 	return s.w.handle(*req, res)
@@ -176,6 +190,10 @@ func bytesCodec() rpc.Codec { return &rpc.BYTESCodec{} }
 
 func encoderByName(n string) rpc.Encoder {
 	switch n {
+	case "yield-pb":
+		return yieldEncoder{rpc.NewPBEncoder()}
+	case "yield-code":
+		return yieldEncoder{rpc.NewCODEEncoder()}
 	case "pb":
 		return rpc.NewPBEncoder()
 	case "code":
@@ -188,8 +206,11 @@ func encoderByName(n string) rpc.Encoder {
 
 // wireEncoder is the encoder that produces the bytes of the named header format ("" = default = pb).
 func wireEncoder(n string) rpc.Encoder {
-	if n == "" || n == "default" {
+	if n == "" || n == "default" || n == "yield-pb" {
 		return rpc.NewPBEncoder()
+	}
+	if n == "yield-code" {
+		return rpc.NewCODEEncoder()
 	}
 	return encoderByName(n)
 }
